@@ -2,6 +2,9 @@
 from s3transfer.exceptions import CancelledError, TransferNotDoneError
 from s3transfer.futures import TransferCoordinator, TransferFuture
 
+# private-attribute groups (vlib/layout.py) the obligations of this module depend on
+LAYOUT = ['coord', 'task']
+
 EXPLANATION = (
     'C17: the real TransferCoordinator / TransferFuture against a reference state machine: (1) one inductive step from '
     'every consistent state (status index and operation index symbolic: the solver enumerates the finite space, the '
